@@ -350,8 +350,9 @@ func (l *Lexer) newToken(tokType token.TokenType, literal string) token.Token {
 	// We need to set the end column and line to the values of the previous
 	// character because we already read the last character and incremented
 	// the column index.
-	// For EOF we don't need to decrement the column index.
-	if tokType != token.EOF {
+	// For EOF we don't need to decrement the column index. An illegal
+	// token doesn't consume its character, it ends where it starts.
+	if tokType != token.EOF && tokType != token.ILLEGAL {
 		endCol = l.prevCol
 		endLine = l.prevLine
 	}
